@@ -63,7 +63,13 @@ pub fn run_stage_opt(name: &str, runs: u64, wall_cap: Duration, total: &mut Stat
     let unconfirmed: std::sync::Mutex<Option<(u64, Scenario, Violation)>> = std::sync::Mutex::new(None);
     // fixed corpora have no schedule to count
     let track_prefix = !name.starts_with("sweep") && !name.starts_with("grid");
-    let b = run_batch(runs, c.jobs, wall_cap, Duration::from_secs(60), |i, st| {
+    let on_hang = |i: u64| {
+        // the stuck run is regenerated from its index and written out as the replay file
+        let sc = gen(i);
+        report::hang_exit(i, Some(&sc));
+    };
+    let hang_limit = Duration::from_secs(std::env::var("VERIF_HANG_LIMIT").ok().and_then(|s| s.parse().ok()).unwrap_or(60));
+    let b = run_batch(runs, c.jobs, wall_cap, hang_limit, &on_hang, |i, st| {
         let sc = gen(i);
         st.runs += 1;
         if let Some(n) = sc.nodes.first() {
